@@ -95,15 +95,21 @@ Definition fs_v (fs : fsmap) : val :=
   VL (map (fun e => VL [phys_v (fst e); node_v (snd e)]) (fs_canon fs)).
 
 (* with permission bits (symbolic links have none worth comparing) *)
-Definition node_mv (m : modes) (fs : fsmap) (p : phys) (n : node) : val :=
+(* Files and directories outside the output directory also carry a modification-time flag in the
+   observation: 1 = the time the sandbox was given, 2 = changed.  The extraction touches nothing
+   outside, so the model's flag there is always 1. *)
+Definition node_mv (inside : phys -> bool) (m : modes) (fs : fsmap) (p : phys) (n : node) : val :=
   let md := match mode_of m fs p with Some x => x | None => 0 end in
+  let mt := if inside p then [] else [VN 1] in
   match n with
-  | NDir => VL [VT "d"; VN md]
-  | NFile d => VL [VT "f"; VB d; VN md]
+  | NDir => VL ([VT "d"; VN md] ++ mt)
+  | NFile d => VL ([VT "f"; VB d; VN md] ++ mt)
   | NLink t => VL [VT "l"; VB t]
   end.
-Definition fs_mv (m : modes) (fs : fsmap) : val :=
-  VL (map (fun e => VL [phys_v (fst e); node_mv m fs (fst e) (snd e)]) (fs_canon fs)).
+Definition fs_mv (inside : phys -> bool) (m : modes) (fs : fsmap) : val :=
+  VL (map (fun e => VL [phys_v (fst e); node_mv inside m fs (fst e) (snd e)]) (fs_canon fs)).
+Definition inside_of (rr : val) : phys -> bool :=
+  if is_tagv (vnth 0 rr) "some" then underb (v_phys (vnth 1 rr)) else (fun _ => false).
 
 Definition xres_v (r : xres) : val :=
   match r with
@@ -128,7 +134,7 @@ Definition run_extract_parts (input : val) : val * val * val * val :=
                  | Some root => VL [VT "some"; phys_v (phys_of cwd root)]
                  | None => VL [VT "none"]
                  end in
-  (xres_v r, rr, fs_mv (v_modes (vnth 0 input)) fs', VB out).
+  (xres_v r, rr, fs_mv (inside_of rr) (v_modes (vnth 0 input)) fs', VB out).
 
 (* kind "extract": observation (status realroot fs-after stdout) *)
 Definition run_extract (input : val) : val :=
@@ -160,6 +166,13 @@ Definition omode_eqb (a b : option N) : bool :=
   | _, _ => false
   end.
 
+(* paths whose observed node carries the flag "modification time changed" *)
+Definition v_mtime_changed (v : val) : list phys :=
+  flat_map (fun e =>
+              let n := vnth 1 e in
+              let fl := if is_tagv (vnth 0 n) "f" then vnth 3 n else if is_tagv (vnth 0 n) "d" then vnth 2 n else VL [] in
+              match fl with VN 2 => [v_phys (vnth 0 e)] | _ => [] end) (vL v).
+
 Definition outside_change (inside : phys -> bool) (mb ma : modes) (before after : fsmap) (p : phys) : option string :=
   if inside p then None
   else match look before p, look after p with
@@ -189,7 +202,10 @@ Definition prop_extract (input obs : val) : val :=
   let inside := if is_tagv (vnth 0 rr) "some" then underb (v_phys (vnth 1 rr)) else (fun _ => false) in
   match first_change inside (v_modes (vnth 0 input)) (v_modes (vnth 2 obs)) before after
                      (map fst before ++ map fst after) with
-  | None => VT "ok"
+  | None =>
+    if existsb (fun p => negb (inside p)) (v_mtime_changed (vnth 2 obs))
+    then VL [VT "FAIL"; VT "changed-outside-output-directory"; VT "mtime-changed"]
+    else VT "ok"
   | Some c => VL [VT "FAIL"; VT "changed-outside-output-directory"; VT c]
   end.
 
@@ -217,7 +233,7 @@ Definition run_createextract (input : val) : val :=
   else
     (* the archive cannot be opened: nothing is extracted *)
     match run_extract3 input with
-    | VL [_; rr; _] => VL [VL [VT "err"]; rr; fs_mv (v_modes (vnth 0 input)) (v_fs (vnth 0 input)); ri]
+    | VL [_; rr; _] => VL [VL [VT "err"]; rr; fs_mv (inside_of rr) (v_modes (vnth 0 input)) (v_fs (vnth 0 input)); ri]
     | v => v
     end.
 
